@@ -1,3 +1,4 @@
 From Coq Require Import List NArith ZArith ExtrOcamlBasic.
 From WV Require Import Lib.PyBytes Lib.PyStrProxy Spec.ProxySpec.
-Extraction "model.ml" refusal_reason category_header fwd_active spec_out select wf_headers syntax_reason N.add N.mul.
+Extraction "model.ml" refusal_reason category_header fwd_active spec_out select wf_headers syntax_reason
+  lower_latin1 strip field_value bad_quoting is_digit N.add N.mul.
